@@ -1872,7 +1872,7 @@ EUPS distribution manifest for %s (%s). Version %s
                     continue
 
                 p = p.copy()
-                if not flavor:
+                if flavor:
                     p.flavor = flavor
                 if not p.flavor:
                     p.flavor = self.eups.flavor
